@@ -23,6 +23,7 @@ def run(chk):
     chk.cov["trusted_base"] = TRUSTED
     chk.proof_part(["UrcuVerif.Props.C02", "drv_gp"], "UrcuVerif.Props.C02", THEOREMS,
                    ["UrcuVerif.Handshake", "UrcuVerif.Gp.Locks", "UrcuVerif.Props.C02", "UrcuVerif.Machine"])
+    chk.live_part()
     ok, log = gp_common.build()
     if not ok:
         chk.fail("build", {"theorem": "harness/scen/gp.c does not compile against /repo", "lean_error": log[-2000:]}, nofail=True)
